@@ -340,6 +340,7 @@ pub fn threads_job(h: &Value, blob: &[u8]) -> Value {
                     }
                 } else {
                     let barrier = std::sync::Barrier::new(n);
+                    let state: Vec<(std::sync::atomic::AtomicI32, std::sync::atomic::AtomicBool)> = (0..n).map(|_| (std::sync::atomic::AtomicI32::new(0), std::sync::atomic::AtomicBool::new(false))).collect();
                     std::thread::scope(|scope| {
                         for t in 0..n {
                             let cs = &calls[t];
@@ -347,14 +348,33 @@ pub fn threads_job(h: &Value, blob: &[u8]) -> Value {
                             let shared_r = &shared_r;
                             let file = &file;
                             let barrier = &barrier;
+                            let st = &state[t];
                             scope.spawn(move || {
+                                st.0.store(unsafe { libc::syscall(libc::SYS_gettid) as i32 }, Ordering::SeqCst);
                                 let own = file.resolver();
                                 barrier.wait();
                                 for c in cs {
                                     let o = if shared { exec_on(shared_r, root, c) } else { exec_on(&own, root, c) };
                                     out.lock().unwrap().push(o);
                                 }
+                                st.1.store(true, Ordering::SeqCst);
                             });
+                        }
+                        // watchdog: free-running threads that all sleep for 5 s (a repeat takes milliseconds) will never wake
+                        let t0 = Instant::now();
+                        let mut asleep_since: Option<Instant> = None;
+                        while !state.iter().all(|s| s.1.load(Ordering::SeqCst)) {
+                            std::thread::sleep(Duration::from_millis(if t0.elapsed() < Duration::from_millis(200) { 1 } else { 50 }));
+                            if t0.elapsed() < Duration::from_secs(2) {
+                                continue;
+                            }
+                            let stuck = state.iter().all(|s| s.1.load(Ordering::SeqCst) || sleeps(s.0.load(Ordering::SeqCst)));
+                            if !stuck {
+                                asleep_since = None;
+                            } else if asleep_since.get_or_insert_with(Instant::now).elapsed() > Duration::from_secs(5) {
+                                let blocked: Vec<usize> = (0..n).filter(|&i| !state[i].1.load(Ordering::SeqCst)).collect();
+                                crate::engine::isolate::reply_and_exit(json!({"deadlock": true, "blocked_threads": blocked, "grants": "free-running threads", "thread_states": thread_states()}));
+                            }
                         }
                     });
                 }
@@ -635,6 +655,7 @@ pub fn run(ctx: &Ctx) {
         }
         scenarios.push(Scenario { name: src.name.clone(), file: Bytes(src.data.clone()), password: Bytes(src.pw.clone()), calls, shared_resolver: k % 4 < 2, cached: k % 3 == 0, mode: "scheduled".into(), schedule: vec![], repeat: 1 });
     }
+    let cyclic_doc: Vec<u8>;
     // hostile graphs: typed references that form a cycle (page-tree nodes naming each other as /Parent); a single
     // thread gets "Recursive reference", and so must threads that enter the cycle at different nodes
     {
@@ -652,6 +673,7 @@ pub fn run(ctx: &Ctx) {
         w.free(0, 0, 65535);
         w.xref_table(9, &[(Bytes::from("Root"), Val::Ref(1, 0))], false);
         let data = w.finish();
+        cyclic_doc = data.clone();
         let mut k = 0usize;
         for calls in [vec![vec![TCall::GetPagesNode(4)], vec![TCall::GetPagesNode(5)]], vec![vec![TCall::GetPagesNode(6)], vec![TCall::GetPagesNode(7)], vec![TCall::GetPagesNode(8)]], vec![vec![TCall::GetPagesNode(4), TCall::Page(0)], vec![TCall::GetPagesNode(5), TCall::GetPagesNode(4)]]] {
             for cached in [true, false] {
@@ -699,6 +721,13 @@ pub fn run(ctx: &Ctx) {
         }
         stress.push(Scenario { name: src.name.clone(), file: Bytes(src.data.clone()), password: Bytes(src.pw.clone()), calls, shared_resolver: k % 2 == 0, cached: k % 4 < 2, mode: "stress".into(), schedule: vec![], repeat: ctx.tier.pick(40, 300) });
     }
+    // free-running threads on the cyclic document (each thread enters the cycle at another node), cold caches each repeat
+    for (k, nodes) in [vec![4u64, 5], vec![6, 7, 8], vec![4, 5, 6, 7]].into_iter().enumerate() {
+        for cached in [true, false] {
+            let calls: Vec<Vec<TCall>> = nodes.iter().map(|n| vec![TCall::GetPagesNode(*n), TCall::Page(0)]).collect();
+            stress.push(Scenario { name: "cyclic-parents".into(), file: Bytes(cyclic_doc.clone()), password: Bytes(vec![]), calls, shared_resolver: k % 2 == 0, cached, mode: "stress".into(), schedule: vec![], repeat: ctx.tier.pick(400, 4000) });
+        }
+    }
     ctx.run_enum(
         "stress-free-running-threads",
         stress.len() as u64,
@@ -715,4 +744,4 @@ pub fn run(ctx: &Ctx) {
     );
 }
 
-pub const RULE: &str = "cases = (document, 2-3 threads x 1-2 calls from {typed get of a page-tree node / font / XObject / stream, raw resolve, page look-up}, shared or per-thread resolver, SyncCache or no cache); scheduled driver: the threads stop at the hook points inside Resolve::get (after the recursion-guard push, at the start of the cache's compute closure, before the guard pop) and a controller grants one thread at a time; the parent runs the schedule without preemption, then every schedule with exactly one preemption (each decision point x each other runnable thread), then an even sample of two- and three-preemption schedules up to the per-scenario budget; stress driver: 4-8 free-running threads x 12 calls repeated 40-300 times; every scenario runs in a worker process; oracle = each call's outcome equals its outcome when issued alone; no panic in any thread, no process abort (failed guard assertion in a destructor), no 'Recursive reference' error that the sequential run lacks, no state where all unfinished threads stay blocked; a stall is inconclusive (exit 2), not a violation; non-trivial = a scenario with more than one schedule executed / any stress scenario; distinct by (document, calls, configuration)";
+pub const RULE: &str = "cases = (document, 2-3 threads x 1-2 calls from {typed get of a page-tree node / font / XObject / stream, raw resolve, page look-up}, shared or per-thread resolver, SyncCache or no cache); scheduled driver: the threads stop at the hook points inside Resolve::get (after the recursion-guard push, on entering the cache's compute closure, after the loader registered itself, before the guard pop) and a controller grants one thread at a time; the parent runs the schedule without preemption, then every schedule with exactly one preemption (each decision point x each other runnable thread), then an even sample of two- and three-preemption schedules up to the per-scenario budget; stress driver: 4-8 free-running threads x 12 calls repeated 40-300 times; every scenario runs in a worker process; oracle = each call's outcome equals its outcome when issued alone; no panic in any thread, no process abort (failed guard assertion in a destructor), no 'Recursive reference' error that the sequential run lacks, no state where all unfinished threads stay blocked; a stall is inconclusive (exit 2), not a violation; non-trivial = a scenario with more than one schedule executed / any stress scenario; distinct by (document, calls, configuration)";
